@@ -13,6 +13,10 @@ ls -d seeded/*/ | sed 's#/$##' > $base/list
 run_one() {
   j=$1; name=$2; wt=$base/w$j
   id=$(basename $name | cut -d- -f1)
+  # a change that does not violate the property it was written for is evaluated with the check of
+  # the property that owns the clause it breaks (meta.json: evaluate_with)
+  ev=$(python3 -c "import json,sys; print(json.load(open(sys.argv[1])).get('evaluate_with',[''])[0])" $PWD/$name/meta.json 2>/dev/null)
+  [ -n "$ev" ] && id=$ev
   git -C $wt checkout -q -- . ; git -C $wt clean -qfd -e target
   cp /repo/Cargo.lock $wt/Cargo.lock
   if ! git -C $wt apply $PWD/$name/patch.diff 2>/dev/null; then echo -e "$(basename $name)\t$id\tpatch-does-not-apply\t\t" ; return; fi
